@@ -9,14 +9,156 @@ iterative context bounding: switching away from a thread that could have continu
 among threads when the running one has finished or not started is free), re-executing the caller's ``run_once`` for
 each.  Replaying a prefix must reproduce the recorded enabled sets, otherwise HarnessError.
 """
+import os
+import pickle
+import select
+import signal
 import sys
 import threading
+import time
+import traceback
 
 WAIT = 20.0  # seconds the scheduler waits for a granted thread to reach its next point
 
 
-class HarnessError(Exception):
-    pass
+class HarnessError(BaseException):
+    """Not an ``Exception``: code under test (and harness code that records the outcome of a call) must not swallow it."""
+
+
+_ACTIVE = None  # the Scheduler of the execution in progress (one at a time per process)
+_REAL_RLOCK = threading.RLock
+_RLOCK_TYPE = type(threading.RLock())
+
+
+class CoopRLock:
+    """Re-entrant lock that the scheduler can see.  A controlled thread that finds it held by another thread does not
+    block in the kernel (the holder is suspended at a scheduling point and could never release it): it reports itself
+    blocked, hands control back, and is only enabled again once the lock is free - the CHESS treatment of a lock
+    acquisition.  Threads the scheduler does not control (the pool's owner) use the real lock underneath."""
+
+    def __init__(self, real=None):
+        self._real = real if real is not None else _REAL_RLOCK()
+        self._owner = None
+        self._count = 0
+
+    def acquire(self, blocking=True, timeout=-1):
+        me = threading.get_ident()
+        sched = _ACTIVE
+        t = sched.by_ident.get(me) if sched is not None else None
+        if t is not None and t.state == "running":
+            while self._owner is not None and self._owner != me:
+                if not blocking:
+                    return False
+                prof = sys.getprofile()
+                sys.setprofile(None)
+                t.blocked_on = self
+                t.label = "lock"
+                sched.back.release()
+                t.go.acquire()
+                t.blocked_on = None
+                sys.setprofile(prof)
+        ok = self._real.acquire(blocking, timeout)
+        if ok:
+            self._owner = me
+            self._count += 1
+        return ok
+
+    def release(self):
+        if self._owner != threading.get_ident():
+            raise RuntimeError("cannot release un-acquired lock")
+        self._count -= 1
+        if self._count == 0:
+            self._owner = None
+        self._real.release()
+
+    def __enter__(self):
+        return self.acquire()
+
+    def __exit__(self, *a):
+        self.release()
+
+    def free_for(self, ident):
+        return self._owner is None or self._owner == ident
+
+
+def own_locks(prefixes=("signac", "synced_collections")):
+    """Replace, in every loaded module of the code under test, the name ``RLock`` (when it is threading's factory) and
+    every class-level lock object / table of lock objects by CoopRLock.  Found by type, not by name.  Meant to be called
+    in a process that is thrown away afterwards (see isolated())."""
+    n = 0
+    for name, mod in list(sys.modules.items()):
+        if mod is None or not any(name == p or name.startswith(p + ".") for p in prefixes):
+            continue
+        for k, v in list(vars(mod).items()):
+            if v is _REAL_RLOCK:
+                setattr(mod, k, CoopRLock)
+                n += 1
+            elif isinstance(v, _RLOCK_TYPE):
+                setattr(mod, k, CoopRLock(v))
+                n += 1
+            elif isinstance(v, type) and getattr(v, "__module__", None) == name:
+                for a, x in list(vars(v).items()):
+                    if isinstance(x, _RLOCK_TYPE):
+                        setattr(v, a, CoopRLock(x))
+                        n += 1
+                    elif isinstance(x, dict) and x and all(isinstance(y, _RLOCK_TYPE) for y in x.values()):
+                        for kk in list(x):
+                            x[kk] = CoopRLock(x[kk])
+                        n += 1
+    return n
+
+
+def isolated(fn, *args, timeout=1500.0):
+    """fn(*args) in a forked child (result pickled back).  The child owns the locks of the code under test
+    (own_locks); whatever threads an aborted execution leaves parked die with it.  A child that does not finish within
+    ``timeout`` seconds is killed and reported as HarnessError - a check never hangs."""
+    from .engine_i import raised_inside_signac
+    r, w = os.pipe()
+    pid = os.fork()
+    if pid == 0:
+        try:
+            os.close(r)
+            try:
+                own_locks()
+                out = ("ok", fn(*args))
+            except BaseException as e:  # noqa
+                out = ("err", raised_inside_signac(e), type(e).__name__, str(e)[:2000], traceback.format_exc()[-3000:],
+                       isinstance(e, HarnessError))
+            try:
+                data = pickle.dumps(out)
+            except BaseException as e:  # noqa
+                data = pickle.dumps(("err", None, type(e).__name__, "result not picklable: " + str(e)[:500], "", True))
+            with os.fdopen(w, "wb") as f:
+                f.write(data)
+        finally:
+            os._exit(0)
+    os.close(w)
+    chunks = []
+    deadline = time.monotonic() + timeout
+    try:
+        while True:
+            left = deadline - time.monotonic()
+            if left <= 0 or not select.select([r], [], [], left)[0]:
+                os.kill(pid, signal.SIGKILL)
+                raise HarnessError(f"isolated evaluation did not finish within {timeout}s (killed)")
+            b = os.read(r, 1 << 16)
+            if not b:
+                break
+            chunks.append(b)
+    finally:
+        os.close(r)
+        os.waitpid(pid, 0)
+    if not chunks:
+        raise HarnessError("isolated evaluation died without a result")
+    out = pickle.loads(b"".join(chunks))
+    if out[0] == "ok":
+        return out[1]
+    _, where, tname, msg, tb, harness = out
+    if harness or where is None:
+        raise HarnessError(f"{tname}: {msg}\n{tb}")
+    exc = type(tname, (Exception,), {})(msg)
+    exc._where_inside_signac = where
+    raise exc
 
 
 _POINT_NAMES = {"open", "mkdir", "rmdir", "unlink", "remove", "rename", "replace", "utime", "chmod", "symlink", "link",
@@ -57,7 +199,7 @@ class SerialPool:
 
 
 class _Task:
-    __slots__ = ("idx", "item", "go", "state", "result", "exc", "thread", "label", "npoints")
+    __slots__ = ("idx", "item", "go", "state", "result", "exc", "thread", "label", "npoints", "blocked_on")
 
     def __init__(self, idx, item):
         self.idx, self.item = idx, item
@@ -66,6 +208,7 @@ class _Task:
         self.result = self.exc = self.thread = None
         self.label = "start"
         self.npoints = 0
+        self.blocked_on = None
 
 
 class Scheduler:
@@ -119,7 +262,15 @@ class Scheduler:
 
     # ---- called in the thread that owns the pool
     def run_pool(self, fn, items, limit):
+        global _ACTIVE
         self.pools += 1
+        _ACTIVE = self
+        try:
+            return self._run_pool(fn, items, limit)
+        finally:
+            _ACTIVE = None
+
+    def _run_pool(self, fn, items, limit):
         base = len(self.tasks)
         tasks = [_Task(base + i, it) for i, it in enumerate(items)]
         self.tasks += tasks
@@ -127,11 +278,13 @@ class Scheduler:
         while any(t.state != "done" for t in tasks):
             started = [t for t in tasks if t.state == "running"]
             fresh = [t for t in tasks if t.state == "new"]
-            enabled = list(started)
+            # a thread waiting for a lock that another thread holds is not enabled
+            enabled = [t for t in started if t.blocked_on is None or t.blocked_on.free_for(t.thread.ident)]
             if fresh and (limit is None or len(started) < limit):
                 enabled.append(fresh[0])  # tasks are handed out in order
             if not enabled:
-                raise HarnessError("no enabled thread although tasks remain")
+                raise HarnessError("deadlock: no enabled thread although tasks remain "
+                                   f"({[(t.idx, t.state, t.label) for t in tasks]})")
             enabled.sort(key=lambda t: (t is not current, t.idx))
             still = current is not None and current in enabled
             i = len(self.points)
